@@ -605,12 +605,11 @@ int64_t cmb_resourcepool_preempt(struct cmb_resourcepool *rpp,
  * cmb_resourcepool_release - Release rel_amount of the resource, not necessarily
  * everything that the calling process holds.
  */
-void cmb_resourcepool_release(struct cmb_resourcepool *rpp, const uint64_t rel_amount)
+void cmb_resourcepool_release(struct cmb_resourcepool *rpp, const uint64_t req_rel_amount)
 {
     cmb_assert_release(rpp != NULL);
-    cmb_assert_release(rel_amount > 0u);
-    cmb_assert_release(rpp->in_use >= rel_amount);
-    cmb_assert_release(rel_amount <= rpp->capacity);
+    cmb_assert_release(req_rel_amount > 0u);
+    cmb_assert_release(req_rel_amount <= rpp->capacity);
 
     const struct cmi_holdable *hrp = (struct cmi_holdable *)rpp;
     const struct cmi_resourcebase *rbp = (struct cmi_resourcebase *)rpp;
@@ -621,8 +620,21 @@ void cmb_resourcepool_release(struct cmb_resourcepool *rpp, const uint64_t rel_a
     const uint64_t key = (uint64_t)pp;
 
     const struct cmi_hashheap *hhp = &(rpp->holders);
+    if (!cmi_hashheap_is_enqueued(hhp, key)) {
+        /*
+         * Preempted, and the notice has not reached the caller (an interrupt
+         * got there first and cancelled it): nothing of ours left to release.
+         */
+        cmb_logger_info(stdout, "Holds nothing of %s, nothing to release", hrp->base.name);
+        return;
+    }
+
     struct pool_item *pi = (struct pool_item *)cmi_hashheap_item(hhp, key);
     cmb_assert_debug(pi->holder == pp);
+
+    /* For the same reason it may hold less than it thinks; never give back more */
+    const uint64_t rel_amount = (req_rel_amount < pi->amount) ? req_rel_amount : pi->amount;
+    cmb_assert_release(rpp->in_use >= rel_amount);
     cmb_logger_info(stdout,
                     "Has %" PRIu64 ", releasing %" PRIu64 ", total in use %" PRIu64,
                     pi->amount, rel_amount, rpp->in_use);
